@@ -76,9 +76,29 @@ class Hostile:
             return r.choice(GARBAGE), "garbage", None
         if k < 0.93:
             return self.mutated(), "mutated", None
+        if k < 0.95:
+            return self.numeric_extreme(), "numeric-extreme", None
         if k < 0.97:
             return self.big(), "big", None
         return "".join(chr(r.choice([r.randint(0, 0x7f), r.randint(0, 0x7ff), r.randint(0x800, 0xd7ff), r.randint(0x10000, 0x10ffff)])) for _ in range(r.randint(0, 60))), "random-unicode", None
+
+    def numeric_extreme(self):
+        """numbers of every length (1..80 digits), with leading zeros, signs, decimals, in the positions that are spoken as words:
+        exponent, root index, denominator, subscript, mixed number"""
+        r = self.rng
+        n = r.randint(1, 80) if r.random() < 0.8 else r.choice([19, 20, 21, 33, 34, 35, 36, 37, 38, 39, 40, 63, 64, 65, 66, 67, 99, 100, 101, 308, 309, 310])
+        digits = "".join(r.choice("0123456789") for _ in range(n))
+        if r.random() < 0.7:
+            digits = r.choice("123456789") + digits[1:]
+        k = r.random()
+        if k < 0.15:
+            digits = digits[:max(1, n // 2)] + r.choice([".", ","]) + digits[max(1, n // 2):]
+        elif k < 0.2:
+            digits = "-" + digits
+        num = "<mn>%s</mn>" % digits
+        shape = r.choice(["<msup><mi>x</mi>%s</msup>", "<mroot><mi>x</mi>%s</mroot>", "<mfrac><mn>1</mn>%s</mfrac>", "<mfrac>%s<mn>3</mn></mfrac>", "<msub><mi>x</mi>%s</msub>",
+                          "<mrow><mn>2</mn><mfrac><mn>1</mn>%s</mfrac></mrow>", "<msup>%s<mn>2</mn></msup>", "%s", "<msubsup><mi>x</mi>%s<mn>2</mn></msubsup>", "<mrow>%s<mo>!</mo></mrow>"])
+        return "<math>" + shape % num + "</math>"
 
     def leaf(self):
         r = self.rng
